@@ -76,8 +76,16 @@ func isLibStruct(t types.Type) bool {
 		return false
 	}
 	p := n.Obj().Pkg()
+	if p != nil && transparentLibStructs[p.Path()+"."+n.Obj().Name()] {
+		return false
+	}
 	return p != nil && p.Path() != repoPkgPath
 }
+
+// library structs whose exported fields the package reads directly: modelled
+// field by field like the package's own structs (their invariants are trusted
+// typeinv clauses in the contract files).
+var transparentLibStructs = map[string]bool{"regexp/syntax.Regexp": true}
 
 func typeKey(t types.Type) string {
 	return types.TypeString(t, func(p *types.Package) string {
